@@ -3,8 +3,8 @@
 Correspondence: link topologies (a forest: outputs / source-less adapters at the roots, adapters as
 inner nodes, inputs as leaves) are built with REAL finam objects (harness TimeComponents whose slots
 are fm.Input / fm.CallbackInput / fm.Output / fm.CallbackOutput, finam adapters Scale, DelayFixed,
-LinearTime, NextTime, DelayToPull, DelayToPush plus three harness Adapter subclasses that switch on a
-single flag each) and linked with `>>`.  `Composition._validate_composition()` is called directly and
+LinearTime, NextTime, DelayToPull, DelayToPush plus four harness Adapter subclasses that switch on
+needs_push / needs_pull / both / the NoBranchAdapter marker) and linked with `>>`.  `Composition._validate_composition()` is called directly and
 `Composition.connect()` is run; the four module-level check helpers of finam.schedule are wrapped by
 recording proxies (classification only: which check ran for which slot, which one raised), the
 harness components / slots record every connect call and every info/data exchange.  Observation:
@@ -31,7 +31,7 @@ COQ_CHECK = "c19_check"
 COQ_MODEL_OBS = "c19_model"
 RULE = (
     "exhaustive sweep of a family of small topologies (2 composition components + 1 outsider, chains of 0-3 "
-    "adapters over 9 adapter kinds, fan-out at every position, static flags, callback inputs/outputs, missing "
+    "adapters over 10 adapter kinds, fan-out at every position, static flags, callback inputs/outputs, missing "
     "sides, dangling adapters; sub-sampled in the quick tier) + random forests (up to 4 roots, depth <= 5, "
     "fan-out <= 3); non-trivial = at least one adapter and (a defect or a fan-out); distinct by canonical case hash"
 )
@@ -47,8 +47,6 @@ ASSUMPTIONS = [
     "a chain (for the dead-link defect) is a complete path output -> adapters -> input; a dead-end adapter branch "
     "without a consuming input is not a chain",
     "created links (for the link-list statement) are those of the link trees that contain a slot of a composition component",
-    "link-list statement: every adapter has at least one target (with a dead-end adapter Composition.metadata raises "
-    "AttributeError on the unchanged tree: candidate finding, counted in distribution.metadata_error_with_dead_end_adapter)",
 ]
 CASE_TIMEOUT = 30
 
@@ -63,6 +61,7 @@ ADA_FLAGS = {
     "hpush": (True, False, False),
     "hpull": (False, True, False),
     "hnb": (False, False, True),
+    "hboth": (True, True, False),
 }
 ADA_KINDS = list(ADA_FLAGS)
 
@@ -92,6 +91,21 @@ class _HPull(fm.Adapter):
         return self.pull_data(time, target)
 
 
+class _HBoth(fm.Adapter):
+    """pass-through adapter that declares needs_push and needs_pull"""
+
+    @property
+    def needs_push(self):
+        return True
+
+    @property
+    def needs_pull(self):
+        return True
+
+    def _get_data(self, time, target):
+        return self.pull_data(time, self)
+
+
 class _HNb(fm.Adapter, fm.interfaces.NoBranchAdapter):
     """pass-through adapter that is only marked NoBranchAdapter"""
 
@@ -112,7 +126,7 @@ def _mk_adapter(kind):
         return fm.adapters.DelayToPull(steps=1)
     if kind == "topush":
         return fm.adapters.DelayToPush()
-    return {"hpush": _HPush, "hpull": _HPull, "hnb": _HNb}[kind]()
+    return {"hpush": _HPush, "hpull": _HPull, "hnb": _HNb, "hboth": _HBoth}[kind]()
 
 
 def _info(static):
@@ -360,22 +374,6 @@ def has_dead_end(case):
     return any(n[0] == "a" and not v for n, v in ch.items())
 
 
-# Candidate finding (reported to the integrator): with a dead-end adapter below a composition output,
-# validation passes and connect succeeds, but Composition.metadata raises AttributeError (the adapter
-# never exchanged an info), so no link list can be reported.  While FLAG_DEAD_END is False the monitor is
-# silent about exactly these cases ("every adapter has a target" is then a domain assumption of the
-# link-list statement); set it to True together with a `known` entry in known_findings.json that names the
-# classifier `dead_end_adapter_metadata`.
-FLAG_DEAD_END = False
-
-
-def _cl_dead_end(case, obs, failure):
-    return bool(obs.get("metadata_error")) and has_dead_end(case) and not defects(case)
-
-
-classifiers = {"dead_end_adapter_metadata": _cl_dead_end}
-
-
 def created_links(case):
     """canonical links of the trees that contain a slot of a composition component"""
     roots, ch = _forest(case)
@@ -613,7 +611,7 @@ def monitor(case, obs):
             return "a component connect / exchange event precedes a validation check"
         if not any(ev[0] == "check" for ev in evs):
             return "connect() ran no validation check"
-        if obs.get("metadata_error") and not (FLAG_DEAD_END is False and has_dead_end(case)):
+        if obs.get("metadata_error"):
             return f"Composition.metadata raised {obs['metadata_error']} after a successful connect"
         if obs["links"] is not None and obs["links"] != created_links(case):
             return f"reported links differ from the created links: reported {obs['links']}, created {created_links(case)}"
@@ -696,7 +694,7 @@ def _rand_case(rng, deep):
         return ["i", o, len(spec["ins"]) - 1]
 
     kinds_w = rng.choice([ADA_KINDS, ["scale", "delay", "topush", "hpush"], ["scale", "delay", "linear", "topull", "hnb"],
-                          ["scale", "hpull", "hpush", "next"]])
+                          ["scale", "hpull", "hpush", "next"], ["scale", "hboth", "hpull", "delay"]])
     maxd = rng.choice([2, 3, 5] if deep else [1, 2, 3])
     p_fan = rng.choice([0.0, 0.15, 0.35])
 
@@ -779,6 +777,11 @@ CORPUS = [
     # needs_pull adapter followed by a push-based one
     _chain_case("plain", False, "push", False, ["hpull", "scale", "hpush"], None, "comp", "comp"),
     _chain_case("plain", False, "push", False, ["hpush", "hpull"], None, "comp", "comp"),
+    # finding F15 (fixed, a09b94c): a dead-end adapter (source but no target) made Composition.metadata raise
+    _c([{"ins": [], "outs": [["push", False]]}, {"ins": [["plain", False]], "outs": []}], _X, ["scale"],
+       [[["o", 0, 0], ["i", 1, 0]], [["o", 0, 0], ["a", 0]]]),
+    _c([{"ins": [], "outs": [["push", False]]}, {"ins": [["plain", False]], "outs": []}], _X, ["scale", "hnb", "delay"],
+       [[["o", 0, 0], ["a", 0]], [["a", 0], ["i", 1, 0]], [["a", 0], ["a", 1]], [["a", 1], ["a", 2]]]),
     # a link between outsiders only is invisible to the composition
     _c([{"ins": [], "outs": [["push", False]]}], [{"ins": [["plain", False]], "outs": [["push", False]]}], ["scale"],
        [[["o", -1, 0], ["a", 0]], [["a", 0], ["i", -1, 0]]]),
